@@ -15,6 +15,14 @@ theorem roulette_in_container (l : List Sym) (slot : Nat) (h : slot < wsum l) :
     (∃ i, wedgeIdx l 0 slot = some i ∧ i < l.length) ∧ rouletteD l slot ∈ l :=
   ⟨wedgeIdx_some l 0 slot (by omega) (by omega), rouletteD_mem l slot h⟩
 
+/-- The hypothesis `slot < sum` cannot be dropped: when every weight is zero (or the container is
+    empty) the wedge loop leaves the container whatever the slot (defect `6b89709`: such symbol
+    sets were accepted by `symbol_set::is_valid`). -/
+theorem wedge_zero_sum (l : List Sym) (slot : Nat) (h : ∀ s ∈ l, s.weight = 0) :
+    wedgeIdx l 0 slot = none ∧ rouletteOf l slot = none := by
+  have := wedgeIdx_none_of_zero l 0 slot (Nat.zero_le _) h
+  exact ⟨this, by simp [rouletteOf, this]⟩
+
 /-- `roulette(c)` / `roulette_terminal(c)` return a symbol of the set, of category `c`
     (a terminal for `roulette_terminal`). -/
 theorem roulette_in_cat (ss : SymSet) (c lo sup : Nat) (d : GDraw) :
@@ -482,7 +490,7 @@ theorem wf_incAgeStep {ss : SymSet} {pre post : Ind} (h : WF ss pre) (hs : IncAg
 inductive Reachable (ss : SymSet) (rows : Nat) : Ind → Prop
   | random {pl : Nat} {post : Ind} : pl < rows → RandomStep ss rows pl post → Reachable ss rows post
   | mutation {pl : Nat} {pre post : Ind} :
-      Reachable ss rows pre → MutStep ss pl pre post → Reachable ss rows post
+      Reachable ss rows pre → pl < rows → MutStep ss pl pre post → Reachable ss rows post
   | crossover {lhs rhs post : Ind} :
       Reachable ss rows lhs → Reachable ss rows rhs → CrossStep lhs rhs post → Reachable ss rows post
   | getBlock {pre post : Ind} {l : Locus} :
@@ -499,7 +507,7 @@ theorem wf_closed {ss : SymSet} (hc : 0 < ss.cats) {rows : Nat} {x : Ind}
     (h : Reachable ss rows x) : WF ss x ∧ x.rows = rows := by
   induction h with
   | random hpl hs => exact ⟨wf_randomStep hc (by omega) hs, hs.1⟩
-  | mutation _ hs ih => exact ⟨wf_mutStep ih.1 hs, by rw [hs.1.1]; exact ih.2⟩
+  | mutation _ _ hs ih => exact ⟨wf_mutStep ih.1 hs, by rw [hs.1.1]; exact ih.2⟩
   | @crossover lhs rhs post _ _ hs ihl ihr =>
     have hsz : rhs.rows = lhs.rows ∧ rhs.cols = lhs.cols :=
       ⟨by rw [ihr.2, ihl.2], by rw [ihr.1.cols_eq, ihl.1.cols_eq]⟩
@@ -515,7 +523,7 @@ inductive TReachable (ss : SymSet) (rows : Nat) : Team → Prop
   | random {pl : Nat} {post : Team} : pl < rows → TeamRandomStep ss rows pl post → TReachable ss rows post
   | ofMembers {t : Team} : (∀ x ∈ t, Reachable ss rows x) → TReachable ss rows t
   | mutation {pl : Nat} {pre post : Team} :
-      TReachable ss rows pre → TeamMutStep ss pl pre post → TReachable ss rows post
+      TReachable ss rows pre → pl < rows → TeamMutStep ss pl pre post → TReachable ss rows post
   | crossover {lhs rhs post : Team} :
       TReachable ss rows lhs → TReachable ss rows rhs → rhs.length = lhs.length →
       TeamCrossStep lhs rhs post → TReachable ss rows post
@@ -526,11 +534,11 @@ theorem team_members_reachable {ss : SymSet} {rows : Nat} {t : Team}
   induction h with
   | random hpl hs => intro x hx; exact Reachable.random hpl (hs x hx)
   | ofMembers hm => exact hm
-  | mutation _ hs ih =>
+  | mutation _ hpl hs ih =>
     intro x hx
     obtain ⟨k, hk, rfl⟩ := exists_getD_of_mem teamMutation.default_ind hx
     rw [hs.1] at hk
-    exact Reachable.mutation (ih _ (getD_mem_of_lt _ _ _ hk)) (hs.2 k hk)
+    exact Reachable.mutation (ih _ (getD_mem_of_lt _ _ _ hk)) hpl (hs.2 k hk)
   | crossover _ _ hlen hs ihl ihr =>
     intro x hx
     obtain ⟨k, hk, rfl⟩ := exists_getD_of_mem teamMutation.default_ind hx
@@ -552,7 +560,7 @@ inductive ReachableF (ss : SymSet) (rows : Nat) : Ind → Prop
       (∀ i, i < rows → ∀ c, c < ss.cats → DrawOK ss rows pl i c (d i c)) →
       ReachableF ss rows (randomInd ss rows pl xo d)
   | mutation {x : Ind} {pl : Nat} {eqv : Gene → Gene → Bool} {bern : Nat → Nat → Bool}
-      {d : Nat → Nat → GDraw} : ReachableF ss rows x →
+      {d : Nat → Nat → GDraw} : ReachableF ss rows x → pl < rows →
       (∀ i, i < x.rows → ∀ c, c < x.cols → DrawOK ss x.rows pl i c (d i c)) →
       ReachableF ss rows (mutation ss pl eqv bern d x).1
   | crossover {x y : Ind} {d : XDraw} : ReachableF ss rows x → ReachableF ss rows y →
@@ -571,9 +579,9 @@ theorem reachableF_reachable {ss : SymSet} (hv : ss.Valid) {rows : Nat} (hp : ro
     {x : Ind} (h : ReachableF ss rows x) : Reachable ss rows x := by
   induction h with
   | random hpl hx hd => exact Reachable.random hpl (randomInd_refines hv hp hx hd)
-  | mutation _ hd ih =>
+  | mutation _ hpl hd ih =>
     have hw := wf_closed hv.cats_pos ih
-    exact Reachable.mutation ih (mutation_refines hv _ _ hw.1 (by rw [hw.2]; exact hp) hd)
+    exact Reachable.mutation ih hpl (mutation_refines hv _ _ hw.1 (by rw [hw.2]; exact hp) hd)
   | crossover _ _ hd ihx ihy =>
     exact Reachable.crossover ihx ihy (crossover_refines _ hd)
   | getBlock _ hl ih =>
@@ -647,7 +655,7 @@ inductive TReachableF (ss : SymSet) (rows : Nat) : Team → Prop
       TReachableF ss rows (teamRandom ss rows pl xo d n)
   | ofMembers {t : Team} : (∀ x ∈ t, ReachableF ss rows x) → TReachableF ss rows t
   | mutation {t : Team} {pl : Nat} {eqv : Gene → Gene → Bool} {bern : Nat → Nat → Nat → Bool}
-      {d : Nat → Nat → Nat → GDraw} : TReachableF ss rows t →
+      {d : Nat → Nat → Nat → GDraw} : TReachableF ss rows t → pl < rows →
       (∀ k, k < t.length → ∀ i, i < (t.getD k teamMutation.default_ind).rows →
         ∀ c, c < (t.getD k teamMutation.default_ind).cols →
           DrawOK ss (t.getD k teamMutation.default_ind).rows pl i c (d k i c)) →
@@ -664,9 +672,9 @@ theorem treachableF_treachable {ss : SymSet} (hv : ss.Valid) {rows : Nat} (hp : 
   induction h with
   | random hpl hd => exact TReachable.random hpl (teamRandom_refines hv hp hd)
   | ofMembers hm => exact TReachable.ofMembers (fun x hx => reachableF_reachable hv hp (hm x hx))
-  | mutation _ hd ih =>
+  | mutation _ hpl hd ih =>
     have hm := team_members_reachable ih
-    refine TReachable.mutation ih (teamMutation_refines hv _ _ (wf_closed_team hv.cats_pos ih) ?_ hd)
+    refine TReachable.mutation ih hpl (teamMutation_refines hv _ _ (wf_closed_team hv.cats_pos ih) ?_ hd)
     intro x hx
     rw [(wf_closed hv.cats_pos (hm x hx)).2]; exact hp
   | crossover _ _ hlen hd ihl ihr =>
